@@ -41,7 +41,7 @@ for k in $ks; do
   fi
   if git -C $tgt apply $src/patch.diff; then
     rm -rf /verif/work_seed_$id
-    /verif/bin/govc check --repo $tgt --work /verif/work_seed_$id --known /verif/known_findings.json > $dst/check_output.txt 2>&1
+    /verif/bin/govc check --repo $tgt --work /verif/work_seed_$id --known /verif/known_findings.json --props C01,C02,C03,C04,C06,C07,C08,C09,C10,C11,C12,C13,C14,C15 --replays /tmp/seed_replays > $dst/check_output.txt 2>&1
     echo "exit=$?" >> $dst/check_output.txt
     git -C $tgt checkout -q -- .
     rm -rf /verif/work_seed_$id
@@ -50,6 +50,6 @@ for k in $ks; do
   fi
   echo "---- $id-$k: $(python3 -c "import json;print(json.load(open('$dst/meta.json')).get('summary',''))" 2>/dev/null)"
   grep -E "demo on|suite with|suite FAIL|NOT APPLY" $dst/confirmation.txt | grep -E "FAIL|ok |ok$|packages|NOT" | head -6
-  grep -E "FAILED|ENGINE|STALE|^govc:|exit=" $dst/check_output.txt | cut -c1-260 | head -12
+  grep -E "FAILED|ENGINE|STALE|^govc:|exit=" $dst/check_output.txt | cut -c1-260 | head -12; grep -o "^VIOLATION property=C[0-9]*" $dst/check_output.txt | sort | uniq -c | tr "\n" " "; echo
 done
 [ -z "$SEED_IN_REPO" ] && [ -d /tmp/wt_seedrun_$id ] && git -C /repo worktree remove --force /tmp/wt_seedrun_$id
